@@ -37,13 +37,13 @@ type limCase struct {
 // what the limit demands, computed from the frames alone (they are otherwise valid)
 type limExpect struct {
 	Deliver   []msg
-	TooLarge  bool   // the connection must be failed with "message too large" (close code 1009)
-	CtlBig    bool   // a control frame declares more than 125 bytes
-	At        int    // frame index
+	TooLarge  bool // the connection must be failed with "message too large" (close code 1009)
+	CtlBig    bool // a control frame declares more than 125 bytes
+	At        int  // frame index
 	Why       string
 	CtlInside bool // a control frame is part of the sequence (it must not count against the message limit: D30)
-	Closed bool // a close frame ended the connection
-	Inflated int // bytes produced by inflating the compressed messages (cost of a model run)
+	Closed    bool // a close frame ended the connection
+	Inflated  int  // bytes produced by inflating the compressed messages (cost of a model run)
 }
 
 func limitRef(frames []rawFrame, limit int) limExpect {
@@ -262,7 +262,7 @@ func part15(n int) {
 	sendSide15()
 	sys := systematic15()
 	idx := 0
-	for rep.Cases-start < n && !tooMany() {
+	for (idx < len(sys) || rep.Cases-start < n) && !tooMany() {
 		var c limCase
 		if idx < len(sys) {
 			c = sys[idx]
@@ -409,7 +409,7 @@ func run15(c limCase) {
 			fmt.Printf("%s %v seg=%s cuts=%v\n  expect: %s\n  impl: %+v\n  msgs=%d writes=%d\n", c.Class, descr, sg.Kind, sprintCuts(sg.Cuts), rp.Expect, res, len(ep.msgs), len(ep.writes))
 		}
 		cost := len(wire) + exp.Inflated
-		if modelable(rcfg) && (thorough || cost <= 8192 || (si == 0 && cost <= 300000 && rng.Intn(5) == 0)) {
+		if modelable(rcfg) && (cost <= 8192 || (thorough && (cost <= 70000 || si == 0)) || (si == 0 && cost <= 300000 && rng.Intn(5) == 0)) {
 			rep.Stat("15:model-runs")
 			if d := compareModel(model, ep, res); d != "" {
 				finding("mismatch", "C15", "ws-receiver-model", "receiver: "+d, rp)
